@@ -70,13 +70,21 @@ type c15Sink struct {
 	last  []byte
 	keep  bool // concurrency cases: remember every payload, not just the last
 	all   [][]byte
+	sig   string // which Consume method received the last payload
+}
+
+func (s *c15Sink) lastSignal() string {
+	s.mu.Lock()
+	defer s.mu.Unlock()
+	return s.sig
 }
 
 func (s *c15Sink) Capabilities() consumer.Capabilities { return consumer.Capabilities{} }
 
-func (s *c15Sink) got(b []byte) error {
+func (s *c15Sink) got(b []byte, sig string) error {
 	s.mu.Lock()
 	defer s.mu.Unlock()
+	s.sig = sig
 	s.calls++
 	s.last = b
 	if s.keep {
@@ -87,22 +95,22 @@ func (s *c15Sink) got(b []byte) error {
 
 func (s *c15Sink) ConsumeLogs(_ context.Context, ld plog.Logs) error {
 	b, _ := (&plog.ProtoMarshaler{}).MarshalLogs(ld)
-	return s.got(b)
+	return s.got(b, "logs")
 }
 
 func (s *c15Sink) ConsumeTraces(_ context.Context, td ptrace.Traces) error {
 	b, _ := (&ptrace.ProtoMarshaler{}).MarshalTraces(td)
-	return s.got(b)
+	return s.got(b, "traces")
 }
 
 func (s *c15Sink) ConsumeMetrics(_ context.Context, md pmetric.Metrics) error {
 	b, _ := (&pmetric.ProtoMarshaler{}).MarshalMetrics(md)
-	return s.got(b)
+	return s.got(b, "metrics")
 }
 
 func (s *c15Sink) ConsumeProfiles(_ context.Context, pd pprofile.Profiles) error {
 	b, _ := (&pprofile.ProtoMarshaler{}).MarshalProfiles(pd)
-	return s.got(b)
+	return s.got(b, "profiles")
 }
 
 func (s *c15Sink) set(err error) {
@@ -211,6 +219,11 @@ func c15StartReceiver(t *testing.T, auth bool, maxBody ...int64) *c15Recv {
 	r := &c15Recv{grpcAddr: c15FreeAddr(t), httpAddr: c15FreeAddr(t), sink: &c15Sink{}}
 	f := otlpreceiver.NewFactory()
 	cfg := f.CreateDefaultConfig().(*otlpreceiver.Config)
+	if len(maxBody) > 0 && maxBody[0] < 0 {
+		// the receiver with custom URL paths (addressing cases)
+		cfg.HTTP.TracesURLPath, cfg.HTTP.MetricsURLPath, cfg.HTTP.LogsURLPath = c15CustomPaths["traces"], c15CustomPaths["metrics"], c15CustomPaths["logs"]
+		maxBody = nil
+	}
 	if len(maxBody) > 0 {
 		cfg.HTTP.ServerConfig.MaxRequestBodySize = maxBody[0]
 		cfg.GRPC.MaxRecvMsgSizeMiB = 1
@@ -365,6 +378,7 @@ type c15Outcome struct {
 	kind    string // ok plain perm st
 	code    uint32
 	hasRI   bool
+	riUnset bool // hasRI: the RetryInfo detail is present but its optional retry_delay field is NOT set (RetryInfo{}); reads as delay 0
 	ri      time.Duration
 	wrapped bool // status error wrapped into consumererror.NewPermanent / fmt.Errorf("%w")
 }
@@ -394,7 +408,11 @@ func (o c15Outcome) err() error {
 	st := status.New(codes.Code(o.code), "c15 explicit status")
 	if o.hasRI {
 		var err error
-		st, err = st.WithDetails(&errdetails.RetryInfo{RetryDelay: durationpb.New(o.ri)})
+		info := &errdetails.RetryInfo{RetryDelay: durationpb.New(o.ri)}
+		if o.riUnset {
+			info = &errdetails.RetryInfo{} // present, retry_delay unset
+		}
+		st, err = st.WithDetails(info)
 		if err != nil {
 			panic(err)
 		}
@@ -719,6 +737,10 @@ func c15Gen(rnd interface{ IntN(int) int }) c15Case {
 			} else {
 				c.out.ri = c15Delays[rnd.IntN(len(c15Delays))]
 			}
+			// three shapes of RetryInfo: absent / present with a delay (incl. 0) / present with the delay field unset
+			if rnd.IntN(4) == 0 {
+				c.out.riUnset, c.out.ri = true, 0
+			}
 		}
 	}
 	if rnd.IntN(5) == 0 {
@@ -978,6 +1000,8 @@ func TestVerifC15(t *testing.T) {
 	fakes := c15StartFakes(t)
 	small := c15StartReceiver(t, false, 4096)
 	px := c15StartProxy(t, open.httpAddr)
+	custom := c15StartReceiver(t, false, -1)
+	routeCorpus := c15RouteCorpus()
 	t.Cleanup(func() {
 		for k, c := range c15XConns {
 			_ = c.Close()
@@ -1014,6 +1038,14 @@ func TestVerifC15(t *testing.T) {
 			c15Case{tr: te[0], enc: te[1], comp: "none", sig: "profiles", items: 2, out: c15Outcome{kind: "st", code: 14, hasRI: true, ri: 1500 * time.Millisecond}, auth: "off"},
 			c15Case{tr: te[0], enc: te[1], comp: "zstd", sig: "profiles", items: 0, shell: true, out: c15Outcome{kind: "perm"}, auth: "off"})
 	}
+	// RetryInfo present with its retry_delay field UNSET (RetryInfo{}) and with an explicit 0, on every retryable code and two others, both transports
+	for _, code := range []uint32{8, 14, 1, 4, 10, 11, 15, 3, 13} {
+		for _, te := range [][2]string{{"grpc", "-"}, {"http", "pb"}} {
+			corpus = append(corpus,
+				c15Case{tr: te[0], enc: te[1], comp: "none", sig: c15Sigs[int(code)%3], items: 2, out: c15Outcome{kind: "st", code: code, hasRI: true, riUnset: true}, auth: "off"},
+				c15Case{tr: te[0], enc: te[1], comp: "none", sig: c15Sigs[int(code)%3], items: 2, out: c15Outcome{kind: "st", code: code, hasRI: true, ri: 0, wrapped: code%2 == 0}, auth: "off"})
+		}
+	}
 	// sender side against the fake servers: the Retry-After forms, signed/huge delays, partial success, odd bodies
 	now := time.Now()
 	for _, fk := range []c15Fake{
@@ -1036,6 +1068,9 @@ func TestVerifC15(t *testing.T) {
 		{tr: "grpc", enc: "-", code: 0, partial: true},
 		{tr: "grpc", enc: "-", code: 14, hasRI: true, ri: -500 * time.Millisecond, partial: true},
 		{tr: "grpc", enc: "-", code: 8, hasRI: true, ri: 0},
+		{tr: "grpc", enc: "-", code: 8, hasRI: true, riUnset: true},
+		{tr: "grpc", enc: "-", code: 14, hasRI: true, riUnset: true},
+		{tr: "grpc", enc: "-", code: 3, hasRI: true, riUnset: true},
 		{tr: "grpc", enc: "-", code: 8},
 		{tr: "grpc", enc: "-", code: 99, hasRI: true, ri: time.Second},
 	} {
@@ -1065,6 +1100,21 @@ func TestVerifC15(t *testing.T) {
 	for _, ci := range vCases(n) {
 		rnd := vRand(ci)
 		var c c15Case
+		// addressing cases: their corpus sits right after the main corpus; 1 random case in 25
+		if ci >= len(corpus) && (ci < len(corpus)+len(routeCorpus) || rnd.IntN(25) == 0) {
+			var rc c15RouteCase
+			if ci < len(corpus)+len(routeCorpus) {
+				rc = routeCorpus[ci-len(corpus)]
+			} else {
+				rc = c15GenRoute(rnd)
+			}
+			out.Linef("case %d", ci)
+			c15RunRoute(t, out, open, custom, rc, ci)
+			out.Linef("nt")
+			out.Linef("end")
+			out.Flush()
+			continue
+		}
 		if ci < len(corpus) {
 			c = corpus[ci]
 		} else if rnd.IntN(5) == 0 {
@@ -1135,7 +1185,15 @@ func TestVerifC15(t *testing.T) {
 			out.Linef("stat rich_accessors_called %d", len(richStats))
 			out.Linef("stat rich_payload_bytes %d", len(p.want))
 		}
-		out.Linef("op send tr=%s enc=%s comp=%s sig=%s items=%d out=%s auth=%s ae=%s", c.tr, c.enc, c.comp, c.sig, c.items, c.out.token(), c.auth, c.ae)
+		rs := "-"
+		if c.out.kind == "st" && c.out.hasRI {
+			rs = "set"
+			if c.out.riUnset {
+				rs = "unset"
+			}
+		}
+		out.Linef("op send tr=%s enc=%s comp=%s sig=%s items=%d out=%s auth=%s ae=%s rs=%s", c.tr, c.enc, c.comp, c.sig, c.items, c.out.token(), c.auth, c.ae, rs)
+		out.Linef("stat retryinfo_shape_%s 1", strings.ReplaceAll(rs, "-", "absent"))
 		// 1. what is on the wire (plain client, no compression)
 		before, _ := r.sink.snapshot()
 		if c.tr == "grpc" {
@@ -1175,7 +1233,12 @@ func TestVerifC15(t *testing.T) {
 		cancel()
 		after, last := r.sink.snapshot()
 		verdict := c15Verdict(err)
-		out.Linef("obs verdict %s calls=%d", verdict, after-before)
+		// ecode: the gRPC code carried by the error the exporter RETURNS (what an upstream receiver would relay)
+		ecode := uint32(0)
+		if err != nil {
+			ecode = uint32(status.Convert(err).Code())
+		}
+		out.Linef("obs verdict %s calls=%d ecode=%d", verdict, after-before, ecode)
 		eq := 1
 		if after-before > 0 && !bytes.Equal(last, p.want) {
 			eq = 0
@@ -1392,6 +1455,19 @@ func c15Raw(out *vOut, r *c15Recv, c c15Case, good bool, rnd interface{ IntN(int
 		}
 		if strings.Contains(c.kind, "bomb") && len(body) >= 4096 {
 			out.Linef("stat raw_bomb_not_small_enough 1")
+		}
+	}
+	// media-type PARAMETERS and case are irrelevant (RFC 9110; the receiver uses mime.ParseMediaType): a valid type is sent decorated in 1 of 3 requests
+	if (ctype == "application/x-protobuf" || ctype == "application/json") && rnd.IntN(3) == 0 {
+		v := rnd.IntN(5)
+		ctype = []string{ctype + "; charset=utf-8", strings.ToUpper(ctype), ctype + " ; q=1", ctype + ";boundary=\"x;y\"", strings.Replace(ctype, "application", "Application", 1) + "; a=b; c=d"}[v]
+		out.Linef("stat raw_ctype_variant_%d 1", v)
+		if !isBad && c.auth != "bad" && c.out.kind == "ok" {
+			defer func(before int) {
+				if after, _ := r.sink.snapshot(); after-before != 1 {
+					out.Linef("viol sig=C15/http/well-formed-request-with-media-type-parameters-not-delivered ctype=%s", vHex(ctype))
+				}
+			}(before)
 		}
 	}
 	st, _, _ := c15ProbeHTTP(r, method, path, ctype, cenc, body, good)
